@@ -8,14 +8,32 @@ configuration (no original string).  `good t`: every Union member inside `t` is 
 grammar is allowed (`Any`, `Set`, `Dict[int, _]`, arbitrary `Literal`s included).
 -/
 import Jap.Core.Adapt
+import Jap.Core.AdaptPins
 import Jap.Gen.AdaptTables
 import Jap.Lemmas.AdaptIdem
 import Jap.Lemmas.AdaptSer
+import Jap.Lemmas.AdaptRestr
 namespace Jap.Props.C10
 open Jap.Adapt
 
 /-- the model was written against the current branch order of `adapt_typehints` -/
 theorem tie_branch_order : Jap.Gen.adaptBranches = branchOrder := by rfl
+
+/-! the per-branch "already adapted" tests (`isinstance` checks, `is_value_of_type`, `val not in subtypehints`), the
+    conversions next to them and the retry of `_check_type` are what makes a result a fixed point: every statement of
+    the transcribed branches is pinned here too (the same regenerated constants as in Props/C02) -/
+theorem tie_prologue : Jap.Gen.adaptPrologueSrc = Pins.adaptPrologueSrc ∧ Jap.Gen.adaptEpilogueSrc = Pins.adaptEpilogueSrc := ⟨rfl, rfl⟩
+theorem tie_leaf_branch : Jap.Gen.leafBranchSrc = Pins.leafBranchSrc := by rfl
+theorem tie_literal_enum_branches : Jap.Gen.literalBranchSrc = Pins.literalBranchSrc ∧ Jap.Gen.enumBranchSrc = Pins.enumBranchSrc := ⟨rfl, rfl⟩
+theorem tie_any_registered_branches : Jap.Gen.anyBranchSrc = Pins.anyBranchSrc ∧ Jap.Gen.registeredBranchSrc = Pins.registeredBranchSrc
+    ∧ Jap.Gen.registeredTypeSrc = Pins.registeredTypeSrc := ⟨rfl, rfl, rfl⟩
+theorem tie_union_branch : Jap.Gen.unionBranchSrc = Pins.unionBranchSrc ∧ Jap.Gen.sortSrc = Pins.sortSrc := ⟨rfl, rfl⟩
+theorem tie_container_branches : Jap.Gen.tupleSetBranchSrc = Pins.tupleSetBranchSrc ∧ Jap.Gen.sequenceBranchSrc = Pins.sequenceBranchSrc
+    ∧ Jap.Gen.mappingBranchSrc = Pins.mappingBranchSrc := ⟨rfl, rfl, rfl⟩
+theorem tie_check_type : Jap.Gen.checkTypeSrc = Pins.checkTypeSrc ∧ Jap.Gen.parseValueOrConfigSrc = Pins.parseValueOrConfigSrc
+    ∧ Jap.Gen.loadValueSrc = Pins.loadValueSrc := ⟨rfl, rfl, rfl⟩
+theorem tie_restricted_validation : Jap.Gen.restrictedNumberValidationSrc = Pins.restrictedNumberValidationSrc
+    ∧ Jap.Gen.restrictedStringValidationSrc = Pins.restrictedStringValidationSrc ∧ Jap.Gen.typeCoreNewSrc = Pins.typeCoreNewSrc := ⟨rfl, rfl, rfl⟩
 
 /-! ### the theorems -/
 
@@ -72,6 +90,69 @@ example :
       = .ok (.list [.tuple [.flt "1.0", .enum 0 "red"], .int 1, .str "x"]) ∧
     adapt O false .none t (.list [.tuple [.flt "1.0", .enum 0 "red"], .int 1, .str "x"])
       = .ok (.list [.tuple [.flt "1.0", .enum 0 "red"], .int 1, .str "x"]) := by
+  exact ⟨rfl, rfl⟩
+
+/-! ### the whole `_check_type` / `parse_object` on values (session 2)
+
+`checkType O t v` is `ActionTypeHint._check_type`, `parseObj O t v` is `parser.parse_object({k: v})` for one key (apply
+pass + validation pass).  For a value that is not a string `_check_type` is the adapter without an original
+string, so the fixed-point theorems lift to the entry points: -/
+
+/-- `_check_type` on a value that is not a `str` is `adapt_typehints` (no retry, no fallback) -/
+theorem C10_checkType_value (O : Oracle) (t : Ty) (v w : Val) (hv : isStr v = false) :
+    checkType O t v = .ok w ↔ adapt O false .none t v = .ok w :=
+  checkType_nonstr_eq O t v w hv
+
+/-- **C10_reparse_value**: what `_check_type` returned for a value is returned unchanged when it is checked again
+    (`good t`; the input and the result are not strings) -/
+theorem C10_reparse_value (O : Oracle) (t : Ty) (v w : Val) (hg : good t = true) (hv : isStr v = false) (hw : isStr w = false)
+    (h : checkType O t v = .ok w) : checkType O t w = .ok w := by
+  rw [checkType_nonstr_eq O t v w hv] at h
+  rw [checkType_nonstr_eq O t w w hw]
+  exact idem O t v w hg h
+
+/-- **C10_validation_pass_accepts**: the validation pass of `parse_object` never rejects what the apply pass produced:
+    when `_check_type` accepts a value, `parse_object` returns exactly its result -/
+theorem C10_validation_pass_accepts (O : Oracle) (t : Ty) (v w : Val) (hg : good t = true) (hv : isStr v = false)
+    (hn : v ≠ .null) (hw : isStr w = false) (h : checkType O t v = .ok w) : parseObj O t v = .ok w := by
+  have h2 := C10_reparse_value O t v w hg hv hw h
+  cases v <;> first
+    | exact absurd rfl hn
+    | (simp only [parseObj, h]; cases w <;> simp_all)
+
+/-- **C10_reparse_object**: `parse_object` applied to its own result returns it unchanged -/
+theorem C10_reparse_object (O : Oracle) (t : Ty) (v w : Val) (hg : good t = true) (hv : isStr v = false)
+    (hw : isStr w = false) (h : checkType O t v = .ok w) : parseObj O t w = .ok w := by
+  have h2 := C10_reparse_value O t v w hg hv hw h
+  cases w <;> first
+    | rfl
+    | (simp only [parseObj, h2])
+
+/-- non-vacuity: a list of tuples given as lists, numbers as text -/
+example :
+    let O : Oracle := { yaml := fun s => if s = "1" then some (.int 1) else some (.str s), loadAny := fun s => some (.str s),
+                        bigFlt := fun _ => some "?", intOf := fun _ => .none }
+    let t : Ty := .list (.union [.tuple [.float, .enum 0 ["red"]], .int])
+    good t = true ∧
+    checkType O t (.list [.list [.str "1", .str "red"], .str "1"]) = .ok (.list [.tuple [.flt "1.0", .enum 0 "red"], .int 1]) ∧
+    parseObj O t (.list [.tuple [.flt "1.0", .enum 0 "red"], .int 1]) = .ok (.list [.tuple [.flt "1.0", .enum 0 "red"], .int 1]) := by
+  exact ⟨rfl, rfl, rfl⟩
+
+/-- a result of a restricted STRING type is a fixed point of `_check_type` (every predicate, every loader): only the
+    text itself gets through, and it is judged on the text alone (`C02_restricted_str_verbatim`) -/
+theorem C10_restricted_str_fixed (O : Oracle) (k : Nat) (v w : Val) (h : checkType O (.rnum .str k) v = .ok w) :
+    checkType O (.rnum .str k) w = .ok w :=
+  checkType_rstr_fixed O k v w h
+
+/-- a restricted NUMBER type outside a Union is covered by `C10_adapt_idem` (`good (.rnum b k)`); INSIDE a Union the
+    second pass can move the value (the restricted member rejects the text but takes the number a later member made of
+    it): `Union[PositiveFloat, int]`, value `'0x10'` — first `16`, then `16.0` (reproduced on the real parser) -/
+theorem C10_idem_fails_rnum_union :
+    let O : Oracle := { yaml := fun s => if s = "0x10" then some (.int 16) else some (.str s), loadAny := fun s => some (.str s),
+                        bigFlt := fun _ => .none, intOf := fun _ => .none,
+                        rnumOk := fun _ v => match v with | .flt r => r != "0.0" | _ => false }
+    adapt O false .none (.union [.rnum .float 0, .int]) (.str "0x10") = .ok (.int 16) ∧
+    adapt O false .none (.union [.rnum .float 0, .int]) (.int 16) = .ok (.flt "16.0") := by
   exact ⟨rfl, rfl⟩
 
 /-! ### where the full statement fails
